@@ -90,3 +90,38 @@ Theorem running_false_after_wait :
       r <> WNotStarted -> cntl is_inv pre <= j -> b = false.
 Proof. exact running_false_after_wait. Qed.
 Print Assumptions running_false_after_wait.
+
+(* No signal overtakes a Recover: when shutdownSignal is closed, every outcome of Shutdown — its error,
+   or its panic together with ErrRecoveredPanic — is already in the collector (the Shutdown goroutine's
+   deferred chain is Recover, close(shutdownSignal), wg.Done in that LIFO order in the model, as in the code). *)
+Theorem shutdown_panic_recorded_before_signal :
+  forall c ls s, reach c ls s -> sdSig s = true -> sd_recorded c (ec s).
+Proof. exact shutdown_panic_recorded_before_signal. Qed.
+Print Assumptions shutdown_panic_recorded_before_signal.
+
+(* The same for the main goroutine: ehSignal is closed only after Run's (and Shutdown's) outcome is recorded;
+   isFinished is stored and mainSignal closed only after Run's, Shutdown's and Cleanup's are.  This is what
+   Wait's isFinished fast path and the ErrorHandler goroutine rely on. *)
+Theorem run_recorded_before_eh_signal :
+  forall c ls s, reach c ls s -> ehSig s = true -> run_recorded c (ec s) /\ sd_recorded c (ec s).
+Proof. exact run_recorded_before_eh_signal. Qed.
+Print Assumptions run_recorded_before_eh_signal.
+
+Theorem all_recorded_before_finished :
+  forall c ls s, reach c ls s -> fFin s = true \/ mainSig s = true ->
+    run_recorded c (ec s) /\ sd_recorded c (ec s) /\ cl_recorded c (ec s).
+Proof. exact all_recorded_before_finished. Qed.
+Print Assumptions all_recorded_before_finished.
+
+(* With the two defers of the Shutdown goroutine swapped (close before Recover) both statements are false:
+   concrete run in which Wait returns nil although Shutdown panicked. *)
+Theorem wait_error_complete_swapped_refuted :
+  exists s, run_swapped cfg_sd_panic init swapped_log = Some s /\
+            In (LRet 1 (RWait WNil)) swapped_log /\ ~ wres_ok cfg_sd_panic WNil.
+Proof. exact wait_error_complete_swapped_refuted. Qed.
+Print Assumptions wait_error_complete_swapped_refuted.
+
+Theorem shutdown_panic_recorded_before_signal_swapped_refuted :
+  exists ls s, run_swapped cfg_sd_panic init ls = Some s /\ sdSig s = true /\ ~ sd_recorded cfg_sd_panic (ec s).
+Proof. exact shutdown_panic_recorded_before_signal_swapped_refuted. Qed.
+Print Assumptions shutdown_panic_recorded_before_signal_swapped_refuted.
